@@ -94,9 +94,9 @@ def obligations(tier):
         Ob('eflr_table', 'ch', 'template attribute 0: 8 of the 16 characteristic combinations x 2 rep codes, attribute 1: {none,RV,CU,CRUV}; 0..2 objects; component 0 omitted/ABSATR/ATTRIB with 8 combinations x 2 rep codes, component 1 with {none,V,RV,CRUV}',
            enc, harness='C03_eflr', func='eflr_table', timeout=1500, parts=108, tiers=('thorough',), classify=_classify),
         Ob('logical_file_splitting', 'ch', 'a first logical file (FILE-HEADER [encrypted record] ORIGIN) followed by every sequence of 0..4 tokens from {new logical file, new logical file '
-           'with an encrypted record before its ORIGIN, PARAMETER table, encrypted record, a further ORIGIN record, a WELL-REFERENCE record}; one visible record per logical record or all in one',
+           'with an encrypted record before its ORIGIN, PARAMETER table, encrypted record, a further ORIGIN record, a WELL-REFERENCE record, an encrypted indirectly formatted record}; one visible record per logical record or all in one',
            ['RP66V1.core.LogicalFile.LogicalIndex.__enter__', 'LogicalFile.LogicalFile.__init__/add_eflr/_add_origin_eflr/is_next', 'pIndex.LogicalRecordIndex', 'EFLR.ExplicitlyFormattedLogicalRecord'],
-           harness='C03_eflr', func='logical_file_split', timeout=280 if q else 900, parts=24, stubs=['SymFile']),
+           harness='C03_eflr', func='logical_file_split', timeout=280 if q else 900, parts=28, stubs=['SymFile']),
         Ob('eflr_cell_values_symbolic', 'ch', 'two columns (USHORT, UVARI count 1..2), two objects (values, ABSATR, omitted); three fully symbolic value bytes',
            enc, harness='C03_eflr', func='eflr_values_symbolic', timeout=200 if q else 900, classify=_classify),
     ]
